@@ -5,7 +5,7 @@ equal between the strict and the lazy implementation after renaming the mode-spe
 """
 import re
 
-from ..lib.cfgq import dominating_guards, natural_loops, cycle_avoiding, switch_edges, blocks_between
+from ..lib.cfgq import dominating_guards, natural_loops, cycle_avoiding, switch_edges, blocks_between, normalized
 from ..lib.facts import callee_fn, is_callee, sp_str, callee_display
 from ..lib.trace import Tracer, canon, strip, walk, root, mentions_field
 
@@ -90,8 +90,9 @@ def scan_features(prog, f):
     # F1: loop guard i < subject.len()
     f1 = None
     for g in dominating_guards(body, tr, cb):
-        c = strip(g.cond)
-        if c[0] == "binop" and c[1] == "Lt" and g.value is True and g.src in blocks:
+        nc, nv = normalized(g)
+        c = strip(nc)
+        if c[0] == "binop" and c[1] == "Lt" and nv is True and g.src in blocks:
             rhs = strip(c[3])
             if rhs[0] == "call" and re.search(r"String::len$|str::<impl str>::len$", rhs[1] or "") and strip(rhs[3][0]) == subject \
                     and strip(c[2]) == ivar:
@@ -187,13 +188,44 @@ def scan_features(prog, f):
     # F7: $k bindings
     cap_pushes = [(b, t) for b, t in body.calls() if is_callee(t, r"Vec::<T, A>::push$") and
                   "Captures::iter" in canon(tr.operand(t["args"][1]))]
-    if len(cap_pushes) != 1:
+    F7_CANON = 'for every group, in order: group.map(CLOSURE).unwrap_or("").to_string()'
+    collected = None
+    if not cap_pushes:
+        # iterator form: captures.iter().map(|g| g.map(as_str).unwrap_or("").to_string()).collect()
+        for b, t in body.calls():
+            if is_callee(t, r"Iterator::collect$"):
+                src = strip(tr.operand(t["args"][0]))
+                if src[0] == "call" and re.search(r"Iterator::map$", src[1] or "") and "Captures::iter" in canon(src[3][0]) and \
+                        not re.search(r"\b(rev|skip|take|filter|step_by|flatten)\(", canon(src[3][0])):
+                    cl = strip(src[3][1])
+                    cf = prog.fns.get(cl[2]) if cl[0] == "agg" and cl[1] == "closure" else None
+                    if cf is not None:
+                        ret = re.sub(r"(\w+::)?\{closure#\d+\}(::\{closure#\d+\})*\{\}", "CLOSURE", canon(Tracer(cf.body).local(0)))
+                        if re.match(r'^ToString::to_string\(&\*Option::unwrap_or\(Option::map\(arg:\w+, CLOSURE\), &\*""\)\)$', ret):
+                            collected = (b, t)
+    if collected is not None:
+        feats["F7"] = F7_CANON
+        kvec = ("call",) + tuple(tr.call(collected[1], collected[0]))[1:]
+        ctx_ok = False
+        for b in sorted(body.reachable()):
+            for st in body.blocks[b]["stmts"]:
+                if st["k"] == "assign" and st["rv"]["k"] == "aggregate" and (st["rv"].get("adt") or "").endswith("::ExecutionContext"):
+                    fields = dict(zip(st["rv"]["fields"], st["rv"]["ops"]))
+                    crc = canon(strip(tr.operand(fields["current_regex_captures"]))) if "current_regex_captures" in fields else ""
+                    loc = canon(tr.operand(fields["locals"])) if "locals" in fields else ""
+                    if crc.startswith("Iterator::collect(Iterator::map(") and "VariableMap::nested(cast(&**arg:exec.locals))" in loc:
+                        ctx_ok = True
+        if ctx_ok:
+            feats["F7b"] = "arm context: current_regex_captures = $k vector, locals = nested(exec.locals)"
+        else:
+            problems.append(("F7", "the arm context does not install the $k vector / nested locals"))
+    elif len(cap_pushes) != 1:
         problems.append(("F7", "expected one push per regex group into the $k vector, found %d" % len(cap_pushes)))
     else:
         b7, t7 = cap_pushes[0]
         val = canon(tr.operand(t7["args"][1]))
         vnorm = re.sub(r"execute(_lazy)?::\{closure#\d+\}\{\}", "CLOSURE", val)
-        feats["F7"] = norm(vnorm)
+        feats["F7"] = F7_CANON
         if not re.match(r'^ToString::to_string\(&\*Option::unwrap_or\(Option::map\(\(Iterator::next\(&IntoIterator::into_iter\(Captures::iter\(&\*Index::index\(…, …\)\.0\)\)\) as Some\)\.0, CLOSURE\), &\*""\)\)$', vnorm):
             problems.append(("F7", "a regex group is not bound as `group.map(as_str).unwrap_or(\"\")`: %s" % vnorm[:200]))
         kvec = strip(tr.operand(t7["args"][0]))
